@@ -31,8 +31,14 @@ def argopt_reported(row, probs, digits, is_max):
     return [a for (a, _), v in zip(row, vals) if v == m]
 
 
-def judge(ctx, g, r_np, r_p):
-    inp = {"game": gen.desc(g)}
+def judge(ctx, g, r_np, r_p, thr=None):
+    """thr: the threshold the solver was run with (None = the default 10^-6); the tolerance of the oracle and
+    the precision of the rounded comparison follow it"""
+    import math as _m
+    from fractions import Fraction as _Fr
+    t_ = THR if thr is None else _Fr(thr)
+    digits = 6 if thr is None else round(-_m.log10(thr))
+    inp = {"game": gen.desc(g)} if thr is None else {"game": gen.desc(g), "thr": thr}
     players = g["players"]
     n = len(players)
     if r_np["outcome"] == "Timeout":
@@ -78,7 +84,7 @@ def judge(ctx, g, r_np, r_p):
         if len(set(t for _, t in row)) >= 2:
             nontriv = True
         fam = g.get("_meta", {}).get("family")
-        tol = 2 * THR if fam in ("close_values", "corridor_choice", "layered_tie", "tie", "reward_tie") else TOL   # acyclic: reports are exact
+        tol = 2 * t_ if fam in ("close_values", "corridor_choice", "layered_tie", "tie", "reward_tie") else 10 * t_   # acyclic: reports are exact
         if not separated(vals, tol):
             ctx.count("skipped_close_values")
             continue
@@ -87,7 +93,7 @@ def judge(ctx, g, r_np, r_p):
         if strat[s] != exp:
             # listed finding: the list is exactly the arg-opt of the ROUNDED REPORTED values, every
             # listed action is truly optimal, and only exact ties are missing
-            rep = argopt_reported(row, x, 6, players[s] == P1)
+            rep = argopt_reported(row, x, digits, players[s] == P1)
             missing_only = all(a in exp for a in strat[s])
             sig = KEY_TIE if (rep == strat[s] and missing_only) else None
             ctx.violation("exact-optimal-set", inp,
@@ -101,7 +107,7 @@ def check_case(ctx, g, model=None, thr=None):
     t = 10 ** (-6) if thr is None else thr
     r_np = impl.reach_only(g, prune=False, thr=t)
     r_p = impl.reach_only(g, prune=True, thr=t)
-    nt = judge(ctx, g, r_np, r_p)
+    nt = judge(ctx, g, r_np, r_p, thr)
     ctx.case({"game": gen.desc(g)}, bool(nt))
     ctx.count("family=" + str(g.get("_meta", {}).get("family", "?")).split(":")[0])
     if model is not None:
@@ -174,4 +180,4 @@ def known_findings(ctx):
 def replay(ctx, viol):
     g = viol["input"]["game"]
     g["transition_list"] = [[tuple(t) for t in row] for row in g["transition_list"]]
-    check_case(ctx, g, None)
+    check_case(ctx, g, None, thr=viol["input"].get("thr"))
